@@ -30,4 +30,8 @@ def main():
                     bad += 1
     subprocess.run(["rm", "-rf", os.path.join(lib.WORK, "sany")])
     print("setup ok" if not bad else f"setup: {bad} modules failed")
-    return 0 if not bad else 2
+    if bad:
+        return 2
+    # demonstrate the bindings (sabotage self-test, about 15 s)
+    import selftest
+    return selftest.main()
